@@ -6,6 +6,7 @@ package main
 
 import (
 	"fmt"
+	"sort"
 	"go/constant"
 	"go/types"
 	"strings"
@@ -16,7 +17,7 @@ import (
 func init() {
 	register(&propDef{
 		id:      "C22",
-		explain: "Structural necessary conditions of 'compressed bodies decode to the original': (R1) every call of a function value produced by stackless.NewFunc has its 'queue full' bool result tested, and on the false outcome the wrapped function is run inline (or the bool is returned to a caller for which the same holds) - so work is never silently skipped under load; (R2) the body compressors (methods of Response that install a compressed body stream) agree on their guards, on resetting Content-Length for streams and on the epilogue, and each one's encoding token, one-shot compressor and stream compressor reach the same compression package, and none gives the buffer that holds the uncompressed body back to its pool before the one-shot compressor has read it; (R3) each is called only under a true HasAcceptEncodingBytes test of the token it stores; (R5) wherever a codec constructor's rejection of a compression level ends in a panic, the level has passed a normaliser whose every return lies in the codec's valid range (constants of the codec package), so no caller-supplied level crashes the process. Not decided: decode(encode(x)) = x, the codecs themselves.",
+		explain: "Structural necessary conditions of 'compressed bodies decode to the original': (R1) every call of a function value produced by stackless.NewFunc has its 'queue full' bool result tested, and on the false outcome the wrapped function is run inline (or the bool is returned to a caller for which the same holds) - so work is never silently skipped under load; (R2) the body compressors (methods of Response that install a compressed body stream) agree on their guards, on resetting Content-Length for streams and on the epilogue, and each one's encoding token, one-shot compressor and stream compressor reach the same compression package, and none gives the buffer that holds the uncompressed body back to its pool before the one-shot compressor has read it; (R3) each is called only under a true HasAcceptEncodingBytes test of the token it stores; (R5) wherever a codec constructor's rejection of a compression level ends in a panic, the level has passed a normaliser whose every return lies in the codec's valid range (constants of the codec package), so no caller-supplied level crashes the process. (R6) a pooled codec goes back where it came from: at every call of a helper that puts its argument into a codec pool, the argument is the result of the helper that takes from the same pool global, released with the level it was acquired with - the pools share one interface type, so the compiler accepts a zstd encoder in the deflate pool. Not decided: decode(encode(x)) = x, the codecs themselves.",
 		run:     runC22,
 	})
 }
@@ -434,6 +435,7 @@ func runC22(p *Prog, r *Report) {
 	}
 	r.Floor("R3", "coder selection sites", nsel, 7)
 	runC22Levels(p, r)
+	runC22PoolFamily(p, r)
 }
 
 // runC22Levels (R5): a compression level comes from the caller and may be
@@ -604,4 +606,181 @@ func runC22Forward(p *Prog, r *Report) {
 	r.Counts["R4 stackless writer.do return arrivals"] = nret
 	r.Check("R4", "stackless writer.do forwards the buffered output before every non-error return", bad == 0 && nret > 0 && sawWrite, pos,
 		fmt.Sprintf("%d of %d explored return arrivals leave (*writer).do without passing the forward-and-reset epilogue and without a known non-nil error (destination Write present: %v): compressed bytes produced by the operation stay in the intermediate buffer", bad, nret, sawWrite), wit...)
+}
+
+// ---- R6: a pooled codec goes back to the pool it came from ---------------
+//
+// Every stackless-writer pool holds values of the one interface type
+// stackless.Writer, and the real-writer pools are handed out through
+// type assertions, so the compiler does not notice a zstd encoder put into
+// the deflate pool: the next deflate stream would be written by it. For
+// every call of a helper that puts its argument into a codec pool, the
+// argument - followed back through merges and conversions - is the result of
+// the helper that takes from the same pool (same global), and is released
+// with the level it was acquired with.
+
+// codecPools: the sync.Pool-carrying globals a function reads.
+func codecPools(fn *ssa.Function) map[string]bool {
+	out := map[string]bool{}
+	for _, b := range fn.Blocks {
+		for _, in := range b.Instrs {
+			for _, op := range in.Operands(nil) {
+				if g, ok := (*op).(*ssa.Global); ok && strings.Contains(g.Type().String(), "sync.Pool") {
+					out[g.Name()] = true
+				}
+			}
+		}
+	}
+	return out
+}
+
+func callsPoolMethod(fn *ssa.Function, name string) bool {
+	found := false
+	allCalls(fn, func(b *ssa.BasicBlock, c ssa.CallInstruction) {
+		if f := c.Common().StaticCallee(); f != nil && f.Name() == name && recvTypeName(f) == "Pool" && f.Pkg != nil && f.Pkg.Pkg.Path() == "sync" {
+			found = true
+		}
+	})
+	return found
+}
+
+func runC22PoolFamily(p *Prog, r *Report) {
+	inCodecFile := func(fn *ssa.Function) bool {
+		f := p.Pos(fn.Pos())
+		return strings.HasPrefix(f, "compress.go:") || strings.HasPrefix(f, "brotli.go:") || strings.HasPrefix(f, "zstd.go:")
+	}
+	releases := map[*ssa.Function]map[string]bool{}
+	acquires := map[*ssa.Function]map[string]bool{}
+	for _, fn := range p.funcsIn("") {
+		if !inCodecFile(fn) || fn.Blocks == nil {
+			continue
+		}
+		pools := codecPools(fn)
+		if len(pools) == 0 {
+			continue
+		}
+		if callsPoolMethod(fn, "Put") && fn.Signature.Results().Len() == 0 {
+			releases[fn] = pools
+		}
+		if callsPoolMethod(fn, "Get") && fn.Signature.Results().Len() > 0 {
+			acquires[fn] = pools
+		}
+	}
+	r.Floor("R6", "codec pool release helpers", len(releases), 6)
+	r.Floor("R6", "codec pool acquire helpers", len(acquires), 6)
+	var origins func(v ssa.Value, seen map[ssa.Value]bool, out map[*ssa.Call]bool, unknown *bool)
+	origins = func(v ssa.Value, seen map[ssa.Value]bool, out map[*ssa.Call]bool, unknown *bool) {
+		if seen[v] {
+			return
+		}
+		seen[v] = true
+		switch v := v.(type) {
+		case *ssa.Phi:
+			for _, e := range v.Edges {
+				origins(e, seen, out, unknown)
+			}
+		case *ssa.TypeAssert:
+			origins(v.X, seen, out, unknown)
+		case *ssa.ChangeInterface:
+			origins(v.X, seen, out, unknown)
+		case *ssa.MakeInterface:
+			origins(v.X, seen, out, unknown)
+		case *ssa.Extract:
+			origins(v.Tuple, seen, out, unknown)
+		case *ssa.Call:
+			out[v] = true
+		case *ssa.Const:
+		default:
+			*unknown = true
+		}
+	}
+	n := 0
+	for _, fn := range p.funcsIn("") {
+		for _, b := range fn.Blocks {
+			for _, in := range b.Instrs {
+				c, ok := in.(ssa.CallInstruction)
+				if !ok {
+					continue
+				}
+				rel := c.Common().StaticCallee()
+				want, isRel := releases[rel]
+				if !isRel || len(c.Common().Args) == 0 {
+					continue
+				}
+				n++
+				out := map[*ssa.Call]bool{}
+				unknown := false
+				origins(c.Common().Args[0], map[ssa.Value]bool{}, out, &unknown)
+				construct := fmt.Sprintf("%s: the codec given to %s was taken from the same pool", funcName(fn), rel.Name())
+				if len(out) == 0 {
+					// a parameter or a field: the owner that stored it is judged where it acquires
+					r.Check("R6", construct, true, p.Pos(c.Pos()), "the value is not acquired in this function")
+					continue
+				}
+				var bad []string
+				for oc := range out {
+					acq := oc.Call.StaticCallee()
+					got, isAcq := acquires[acq]
+					switch {
+					case !isAcq:
+						bad = append(bad, fmt.Sprintf("comes from %s, which is not a pool helper", calleeName(oc)))
+					case !sameSet(got, want):
+						bad = append(bad, fmt.Sprintf("was taken from %s by %s but is put into %s", joinSorted(got), acq.Name(), joinSorted(want)))
+					default:
+						// same level on both sides
+						la, lr := oc.Call.Args[len(oc.Call.Args)-1], c.Common().Args[len(c.Common().Args)-1]
+						if isIntType(la.Type()) && isIntType(lr.Type()) && len(acq.Params) > 1 && len(rel.Params) > 1 && la != lr {
+							ka, oka := constInt(la)
+							kr, okr := constInt(lr)
+							ba, fa := loadedField(la)
+							br, fr := loadedField(lr)
+							sameField := fa != nil && fa == fr && ba == br && !storesField(fn, fa)
+							if !(oka && okr && ka == kr) && !(globalOfValue(la) != "" && globalOfValue(la) == globalOfValue(lr)) && !sameField {
+								bad = append(bad, fmt.Sprintf("is acquired with level %s and released with level %s", la.Name(), lr.Name()))
+							}
+						}
+					}
+				}
+				sort.Strings(bad)
+				r.Check("R6", construct, len(bad) == 0, p.Pos(c.Pos()),
+					"the codec "+strings.Join(bad, "; ")+": the pool's next taker gets a coder of another format (or level) behind the shared interface type, and what it writes does not decode per the Content-Encoding it is sent with")
+			}
+		}
+	}
+	r.Floor("R6", "codec release call sites", n, 12)
+}
+
+func sameSet(a, b map[string]bool) bool {
+	if len(a) != len(b) {
+		return false
+	}
+	for k := range a {
+		if !b[k] {
+			return false
+		}
+	}
+	return true
+}
+
+func globalOfValue(v ssa.Value) string {
+	if u, ok := v.(*ssa.UnOp); ok {
+		if g, ok := u.X.(*ssa.Global); ok {
+			return g.Name()
+		}
+	}
+	return ""
+}
+
+// storesField: fn itself assigns the field (then two loads of it need not agree).
+func storesField(fn *ssa.Function, f *types.Var) bool {
+	for _, b := range fn.Blocks {
+		for _, in := range b.Instrs {
+			if st, ok := in.(*ssa.Store); ok {
+				if fa, ok := st.Addr.(*ssa.FieldAddr); ok && fieldVar(fa.X.Type(), fa.Field) == f {
+					return true
+				}
+			}
+		}
+	}
+	return false
 }
